@@ -294,6 +294,63 @@ def _observe(ct, cv, observe):
     raise ValueError(observe)
 
 
+def copy_job(job: Dict[str, Any]) -> Dict[str, Any]:
+    """target.set(source) where both are ABI integers of possibly different widths and the source holds Btoi(arg 0):
+    nothing is demanded when PyTeal rejects the copy; an accepted copy must fail for a value that does not fit the
+    target and otherwise log the target's encoding (all 2^64 argument values, z3)"""
+    import pyteal as pt
+    tb, sb = job["target_bits"], job["source_bits"]
+    cls = {8: pt.abi.Uint8, 16: pt.abi.Uint16, 32: pt.abi.Uint32, 64: pt.abi.Uint64}
+
+    def build():
+        def body():
+            s_, t_ = cls[sb](), cls[tb]()
+            return pt.Seq(s_.set(pt.Btoi(pt.Txn.application_args[0])), t_.set(s_), pt.Log(t_.encode()))
+        if job.get("backend") == "sub":
+            f = pt.Subroutine(pt.TealType.none)(lambda: body())
+            return P.compile_abi(pt.Seq(f(), pt.Approve()), job["version"], job.get("optimize"))
+        return P.compile_abi(pt.Seq(body(), pt.Approve()), job["version"], job.get("optimize"))
+
+    out, prog, teal = _common(job, build)
+    if prog is None:
+        return out          # rejected when built (or crashed: counted by the driver)
+    cfg = CtxConfig(mode="A", version=job["version"])
+    cfg.lens[ARG0] = (8,)
+    eng = Engine(timeout_ms=job.get("timeout_ms", 20000), max_paths=200)
+    na = z3.BitVec("g0.NumAppArgs", 64)
+    a = [_argbyte(ARG0, k) for k in range(8)]
+    val = z3.Concat(*a)
+    pre = [z3.UGE(na, z3.BitVecVal(1, 64)), z3.ULE(na, z3.BitVecVal(16, 64))]
+    shape = {"len:" + ARG0: 8, "GroupIndex": 0}
+    lim = min(tb, sb)
+    fits = z3.ULT(val, z3.BitVecVal(1 << lim, 64)) if lim < 64 else z3.BoolVal(True)
+    enc = a[8 - tb // 8:]
+    refs = [Outcome(pre + [fits], "return", ret=U(1), effects=[("log", Bs(list(enc)))], shape=dict(shape))]
+    if lim < 64:
+        refs.append(Outcome(pre + [z3.Not(fits)], "fail", kind="range", shape=dict(shape)))
+    runner = tv.teal_runner_for(prog, cfg, eng, Bounds(loop_k=2, call_depth=4))
+    res = tv.check_against(refs, runner, eng, want_sample=job.get("want_sample", False))
+    _finish(out, job, res, eng)
+    for cand in res.candidates:
+        conc = tv.concretize(cand["model"], cand["shape"])
+        teal2, st2, _ = _try(build)
+        if st2 != "ok":
+            continue
+        p = _concrete_run(teal2, cfg, conc)
+        out["replayed"] += 1
+        arg0 = conc.get(ARG0, b"")
+        arg0 = arg0 + bytes(8 - len(arg0))
+        v = int.from_bytes(arg0, "big")
+        bad = v >= (1 << lim) or int(conc.get("g0.NumAppArgs", 0)) < 1
+        q = _expected_outcome(bad, None if bad else v.to_bytes(tb // 8, "big"))
+        if tv.outcomes_differ_concretely(p, q):
+            out["violations"].append({"kind": "copy", "what": "uint%d.set(a uint%d holding %d)" % (tb, sb, v), "job": job, "input": tv.jsonable_conc(conc),
+                                      "teal_outcome": tv.describe_outcome(p), "reference_outcome": tv.describe_outcome(q), "teal": teal2[-1500:]})
+            break
+        out["unconfirmed"] += 1
+    return out
+
+
 def access_job(job: Dict[str, Any]) -> Dict[str, Any]:
     t = tt(job["type"])
     lens = list(job["lens"])
